@@ -38,7 +38,7 @@ func runC18(r *run) {
 	}
 	home, cwd0 := slog.VerifHomeCwd()
 	wd, _ := os.Getwd()
-	keysGood := []string{"/opt/secret-corp", "/root/proj", "/srv/x y", "/data", "/data/deep/er", home + "/work"}
+	keysGood := []string{"/opt/secret-corp", "/root/proj", "/srv/x y", "/data", "/data/deep/er", home + "/work", "/srv/build/acme/", "/mnt/vol/"}
 	replGood := []string{"~", ".", "$REPO", "S", "~w"}
 	base := slog.LstdFlags &^ (slog.Lprivacypath | slog.Lprivacypathregexp | slog.Lcaller)
 	ctx := context.Background()
@@ -137,7 +137,7 @@ func runC18(r *run) {
 		paths := []string{home + "/proj/a.go", home, cwd0 + "/x/y.go", wd + "/harness/c18.go", "/opt/secret-corp/monorepo/svc/vendor/lib/y.go",
 			"/root/proj/vendor/x.go", "/data/deep/er/f.go", "/data/f.go", "/srv/x y/z.go", "/Volumes/ext/src/a.go", "/Volumes", "/Volumes/",
 			"/Volumes/x", "/VolumesBackup/2024/src/a.go", "/usr/lib/go/src/runtime/proc.go", "relative/path.go", "", "/a/x", "/t/x", "/",
-			home + "/work/internal/a.go", "/tmp/node_modules/z.js"}
+			home + "/work/internal/a.go", "/tmp/node_modules/z.js", "/srv/build/acme/svc/main.go", "/mnt/vol/a.go", "/mnt/volume/a.go"}
 		for _, fl := range []slog.Flags{slog.Lprivacypath | slog.Lprivacypathregexp, slog.Lprivacypath, 0, slog.Lprivacypathregexp} {
 			slog.SetFlags(base | fl)
 			for _, p := range paths {
